@@ -244,6 +244,8 @@ package corebgp
 //@   loop#0 invariant [shape]  -1 <= rangeindex && rangeindex + 1 <= len(c.capabilities) && fresh(caps.arr) && len(c.capabilities) > 0
 //@   loop#0 invariant [chain]  (rangeindex == -1 ? len(caps) == 0 : offs[0] == 0 && len(caps) == offs[rangeindex] + 2 + len(c.capabilities[rangeindex].Value)) && (forall k :: 0 <= k && k < rangeindex ==> offs[k+1] == offs[k] + 2 + len(c.capabilities[k].Value))
 //@   loop#0 invariant [fits] forall k :: 0 <= k && k <= rangeindex ==> 0 <= offs[k] && offs[k] + 2 + len(c.capabilities[k].Value) <= len(caps) && len(c.capabilities[k].Value) <= 255
+//@   loop#0 invariant [codes] forall k :: 0 <= k && k <= rangeindex ==> 0 <= offs[k] && offs[k] + 2 <= len(caps) && caps[offs[k]] == c.capabilities[k].Code && caps[offs[k] + 1] == len(c.capabilities[k].Value)
+//@   ensures [each_capability_header_verbatim] err == nil ==> (forall k :: 0 <= k && k < len(c.capabilities) ==> b[2 + offs[k]] == c.capabilities[k].Code && b[2 + offs[k] + 1] == len(c.capabilities[k].Value))
 //@   ensures [empty_rejected] len(c.capabilities) == 0 ==> err != nil
 //@   ensures [nil_on_error]   err != nil ==> b == nil
 //@   ensures [param_header]   err == nil ==> len(b) >= 2 && len(b) <= 257 && b[0] == 2 && b[1] == len(b) - 2 && fresh(b.arr)
@@ -260,6 +262,13 @@ package corebgp
 //@   local params #1 []uint8
 //@   requires [params_non_nil] forall k :: 0 <= k && k < len(o.optionalParams) ==> isType(o.optionalParams[k], *capabilityOptionalParam) && asType(o.optionalParams[k], *capabilityOptionalParam) != nil
 //@   loop#0 invariant [shape] -1 <= rangeindex && rangeindex + 1 <= len(o.optionalParams) && fresh(params.arr) && len(b) == 9 && fresh(b.arr) && b.arr != params.arr && b[0] == o.version && be16(b, 1) == o.asn && be16(b, 3) == o.holdTime && be32(b, 5) == o.bgpID
+//@   ghostvar perr bool = false
+//@   ghostvar total int = 0
+//@   at call encode#0 after set perr = result1 != nil
+//@   at call encode#0 after set total = total + len(result0)
+//@   loop#0 invariant [total] !perr && total == len(params)
+//@   ensures [encodes_whenever_the_parameters_fit_one_length_octet] (err == nil) == (!perr && total <= 255)
+//@   ensures [all_parameters_included] err == nil ==> len(b) == 29 + total
 //@   ensures [nil_on_error] err != nil ==> b == nil
 //@   ensures [message] err == nil ==> len(b) >= 29 && len(b) <= 29 + 255 && markerOK(b) && be16(b, 16) == len(b) && b[18] == 1 && fresh(b.arr)
 //@   ensures [fixed_fields] err == nil ==> b[19] == o.version && be16(b, 20) == o.asn && be16(b, 22) == o.holdTime && be32(b, 24) == o.bgpID
